@@ -46,6 +46,11 @@ class Life:
         self.nfile = 0
 
         import gotranx  # noqa: F401  (the system under test, from /repo's working tree)
+        import sympy.core.random as sympy_random
+
+        # seam: sympy shuffles its assumption queries with an entropy-seeded RNG (and tests
+        # numeric equality at random points); the life's schedule owns that seed
+        sympy_random.seed(int(plan.get("sympy_seed", 0)))
         import structlog
         import logging
 
@@ -489,6 +494,7 @@ class Life:
         return {
             "life": self.plan["life"],
             "hash_key": self.plan["hash_key"],
+            "sympy_seed": self.plan.get("sympy_seed", 0),
             "hashseed_env": os.environ.get("PYTHONHASHSEED"),
             "timed_out": timed_out,
             "events": events,
